@@ -133,6 +133,9 @@ func (e *Explorer) Run(prefix []int, expect []Point, tracing bool) *Execution {
 	if x.diverged != "" {
 		Fatal(fmt.Sprintf("nondeterministic harness: %s (prefix %v)", x.diverged, prefix))
 	}
+	for i := range x.Trace {
+		x.Trace[i].resolve()
+	}
 	if len(x.Choices) < len(prefix) {
 		Fatal(fmt.Sprintf("nondeterministic harness: execution ended after %d points, prefix has %d (%v)", len(x.Choices), len(prefix), prefix))
 	}
